@@ -27,7 +27,7 @@ def sample_sphere(center : Vec, radius : float, n_pts : int, return_point_cloud 
     pts = radius*pts + center
     if return_point_cloud:
         pointcloud = PointCloud()
-        pointcloud.vertices += list(pts)
+        pointcloud.vertices += [Vec(p) for p in pts]
         return pointcloud
     else:
         return pts
@@ -55,7 +55,7 @@ def sample_ball(center : Vec, radius : float, n_pts : int, return_point_cloud : 
     pts = pts*R + center
     if return_point_cloud:
         pointcloud = PointCloud()
-        pointcloud.vertices += list(pts)
+        pointcloud.vertices += [Vec(p) for p in pts]
         return pointcloud
     else:
         return pts
@@ -129,7 +129,7 @@ def sample_polyline(
         sampled_pts[i,:] = t*pA + (1-t)*pB
     if return_point_cloud:
         pointcloud = PointCloud()
-        pointcloud.vertices += list(sampled_pts)
+        pointcloud.vertices += [Vec(p) for p in sampled_pts]
         return pointcloud
     else:
         return sampled_pts
@@ -174,7 +174,7 @@ def sample_surface(
     
     if return_point_cloud:
         pointcloud = PointCloud()
-        pointcloud.vertices += list(sampled_pts)
+        pointcloud.vertices += [Vec(p) for p in sampled_pts]
         if return_normals: 
             pc_normals = pointcloud.vertices.create_attribute("normals", float, 3, dense=True)
             pc_normals._data = sampled_normals
